@@ -616,6 +616,14 @@ class Interp:
             self.rng_draws.append({"name": "native:%s" % nm, "where": self.where})
         if fn is builtins.open or nm in ("save", "savez", "savez_compressed", "savetxt", "writeto", "tofile", "dump") and mod.split(".")[0] in ("numpy", "astropy", "pickle", "json", "h5py"):
             self.effect("file-write", None, "%s.%s" % (mod, nm))
+        if mod.split(".")[0] in ("os", "posix", "nt", "shutil", "pathlib", "tempfile") or type(getattr(fn, "__self__", None)).__module__ in ("pathlib",):
+            if nm in ("makedirs", "mkdir", "remove", "unlink", "rename", "renames", "replace", "rmdir", "removedirs", "rmtree", "chmod", "utime", "touch", "symlink", "link", "truncate", "move", "copy", "copyfile",
+                      "copy2", "copytree", "write_text", "write_bytes", "mkstemp", "mkdtemp"):
+                # a call that changes the file system: logged as an effect and NOT carried out (the analysis must not touch real files)
+                self.effect("file-write", None, "%s.%s" % (mod or "pathlib", nm))
+                if nm in ("mkstemp", "mkdtemp"):
+                    raise Unsupported("temporary file / directory created by the code under analysis")
+                return None
         if not trusted:
             args = concretize(list(args))
             kwargs = concretize(dict(kwargs))
